@@ -73,6 +73,7 @@ REGIONS = {
     'core_split': dict(split=True),
     # a pre-emptive Schedule (with zero-server shifts) feeding a small finite node: blocked customers meet shift changes
     'schedpre_tandem': dict(sched=1.0, schedpre=1.0, block=1.0, tandem=True),
+    'sched_tandem': dict(sched=1.0, block=1.0, tandem=True, tandem_nonpre=True),      # the same with non-pre-emptive one-server shifts (overtime servers + blocking)
     'sched_dyn': dict(sched=1.0, dyn=1.0, multiclass=True, noblock=True),   # class change while waiting at nodes with (non-pre-emptive) Schedules
     'batch_mix': dict(mix=True, batchy=True),                      # batch arrivals under max_time / max_customers / max_time
     'core_mix': dict(mix=True),                                    # one run = max_time, then max_customers, then max_time again
@@ -88,6 +89,7 @@ REGIONS = {
     # C18: is a reported deadlock genuine when waiting customers can renege / when a Schedule brings new servers?
     'deadlock_renege': dict(block=1.0, deadlock=True, renege=1.0),
     'deadlock_sched': dict(block=1.0, deadlock=True, sched=1.0),
+    'deadlock_dynpre': dict(block=1.0, deadlock=True, dyn=1.0, prio=1.0, preempt=1.0, multiclass=True),   # class change while waiting that pre-empts at full nodes
     'all': dict(prio=0.4, preempt=0.3, sched=0.3, schedpre=0.3, slotted=0.15, renege=0.3, dyn=0.2, routers=0.3,
                 block=0.4),
 }
@@ -298,7 +300,12 @@ def gen(region, seed, size='quick'):
         cs[rng.randrange(m)] = 0
         if all(c == 0 for c in cs):
             cs[0] = rng.choice([1, 2])
-        cfg['servers'] = [{'kind': 'sched', 'c': cs, 'ends': ends, 'pre': rng.choice(['resume', 'restart', 'resample']), 'offset': rng.choice([0, 0, 2])},
+        pre_t = rng.choice(['resume', 'restart', 'resample'])
+        if f.get('tandem_nonpre'):
+            # NON-pre-emptive shifts of one server: busy servers go into overtime next to their successor, customers blocked from either
+            pre_t = False
+            cs = [1] * m
+        cfg['servers'] = [{'kind': 'sched', 'c': cs, 'ends': ends, 'pre': pre_t, 'offset': rng.choice([0, 0, 2])},
                           rng.choice([1, 1, 2])]
         cfg['qcap'] = [rng.choice(['inf', 3, 5]), rng.choice([0, 0, 1])]
         cfg['syscap'] = 'inf'
@@ -321,6 +328,14 @@ def gen(region, seed, size='quick'):
         t1 = rng.choice([7, 20, 40])
         cfg['run'] = [['time', t1], ['cust', rng.choice([2, 5, 9, 14]), rng.choice(['Finish', 'Arrive', 'Accept', 'Complete'])],
                       ['time', t1 + rng.choice([10, 30, 60, 100])]]
+    if f.get('jockey') and rng.random() < 0.3:
+        # drawn last: a STATEFUL jockeying router (round robin) in a third of the jockeying configurations
+        for r in cfg['routing']:
+            if r.get('kind') == 'nr':
+                for x in r['routers']:
+                    if x.get('kind') == 'jockey':
+                        x['kind'] = 'jockey_alt'
+                        x['jocks'] = [x.pop('jock'), rng.choice(list(range(1, n + 1)) + [-1])]
     if 'spf' in f:          # drawn last so that the other regions' configurations are unchanged
         cfg['spf'] = [(rng.choice(['hi', 'idle', 'cls', 'hi', None]) if (isinstance(servers[j], dict) or (isinstance(servers[j], int) and servers[j] >= 1)) else None)
                       for j in range(n)]
